@@ -217,7 +217,11 @@ func (h *nativeProxyHandler) deleteSym(target *Object, prop *Symbol) (bool, bool
 
 func (h *nativeProxyHandler) ownKeys(target *Object) (*Object, bool) {
 	if trap := h.handler.OwnKeys; trap != nil {
-		return trap(target), true
+		keys := trap(target)
+		if keys == nil {
+			panic(target.runtime.NewTypeError("'ownKeys' on proxy: trap returned neither object nor array-like"))
+		}
+		return keys, true
 	}
 	return nil, false
 }
@@ -231,7 +235,11 @@ func (h *nativeProxyHandler) apply(target *Object, this Value, args []Value) (Va
 
 func (h *nativeProxyHandler) construct(target *Object, args []Value, newTarget *Object) (Value, bool) {
 	if trap := h.handler.Construct; trap != nil {
-		return trap(target, args, newTarget), true
+		obj := trap(target, args, newTarget)
+		if obj == nil {
+			panic(target.runtime.NewTypeError("'construct' on proxy: trap returned a non-object"))
+		}
+		return obj, true
 	}
 	return nil, false
 }
